@@ -123,6 +123,16 @@ WordImage(map, w, n) == Bind(LetterTable(map, n), LAMBDA tab : WordImageT(tab, w
 TermsImage(map, ts, n) == Bind(LetterTable(map, n), LAMBDA tab : TermsImageT(tab, ts, n))
 FAdjWord(w) == [k \in 1..Len(w) |-> <<w[Len(w) + 1 - k][1], 1 - w[Len(w) + 1 - k][2]>>]
 
+\* ------------------------------------------------------------- wire maps
+\* A wire map is an injective sequence wm: wire i of the n-qubit register is renamed to label wm[i] \in 1..K ("a dictionary
+\* defining how to map the orbitals of the Fermi operator to qubit wires").  Renaming is a PURE relabelling of the image: the
+\* letter on wire i moves to label wm[i], every other label carries the identity, coefficients are untouched; it is applied
+\* ONCE to the image of the whole operator (word or sentence alike).  The labels may overlap the wires (a permutation of 1..n).
+WireMaps(n, K) == {f \in [1..n -> 1..K] : \A i \in 1..n : \A j \in 1..n : i # j => f[i] # f[j]}
+RelabelWord(w, wm, K) == [p \in 1..K |-> IF \E i \in DOMAIN wm : wm[i] = p THEN w[CHOOSE i \in DOMAIN wm : wm[i] = p] ELSE 0]
+SRelabel(ss, wm, K) == Bind(ss, LAMBDA s : Bind(PSetToSeqL(DOMAIN s), LAMBDA q :
+   SFromPairsL([k \in DOMAIN q |-> <<RelabelWord(q[k], wm, K), s[q[k]]>>])))
+
 \* --------------------------------------------- the fixed Clifford |f> -> |B f>
 \* image of a single-wire Pauli: X_j -> X_{column j of B}; Z_j -> Z_{row j of B^-1}; Y_j = i X_j Z_j
 ConjLetter(B, Bi, j, l, n) ==
